@@ -9,7 +9,7 @@ import ast
 from .. import astutil as A
 from ..fa import FA
 from ..loader import AnalysisError
-from .cache_model import CacheModel, self_attr, branch_filter, both, safe_expand
+from .cache_model import CacheModel, self_attr, branch_filter, both, safe_expand, value_sources
 from .effects import reach_effects, storage_backend_classes, QUERY_METHODS
 from .keys import check_keying
 from . import c06
@@ -154,13 +154,21 @@ def check_cache_reads_own_key(ck, cm: CacheModel, R):
     for r in fa.returns():
         if r.value is None:
             continue
-        e = safe_expand(fa, r.value, r)
-        subs = [x for x in ast.walk(e) if isinstance(x, ast.Subscript) and self_attr(x.value) in slots]
-        gets = [x for x in ast.walk(e) if isinstance(x, ast.Call) and A.call_attr(x) in ("get", "pop") and self_attr(A.call_recv(x)) in slots and x.args]
-        keys = [x.slice for x in subs] + [x.args[0] for x in gets]
+        # per origin of the returned value (directly, through a temporary, or through a result variable set on several branches)
+        srcs = value_sources(fa, r) or [(r.value, None)]
+        ok, foreign = True, []
+        for (v_, at_) in srcs:
+            try:
+                e = fa.expand(v_, at_) if at_ is not None else v_
+            except AnalysisError:
+                e = v_
+            subs = [x for x in ast.walk(e) if isinstance(x, ast.Subscript) and self_attr(x.value) in slots]
+            gets = [x for x in ast.walk(e) if isinstance(x, ast.Call) and A.call_attr(x) in ("get", "pop") and self_attr(A.call_recv(x)) in slots and x.args]
+            keys = [x.slice for x in subs] + [x.args[0] for x in gets]
+            foreign += [k for k in keys if _cache_key_canon(ck, cm, k) != own]
+            ok = ok and bool(keys)
         n += 1
-        foreign = [k for k in keys if _cache_key_canon(ck, cm, k) != own]
-        ok = bool(keys) and not foreign
+        ok = ok and not foreign
         ck.ob(R, fa.key(r, "reads-own-key"), ok,
               "the served value is read under the asked memento's own cache key" if ok else
               "read_result returns a value read under `%s`, not under the cache key of the memento it was asked about: a call can be answered with "
@@ -422,8 +430,9 @@ def check_forget_scope(ck, cm: CacheModel):
     # custom metadata (and results) are keyed per call and can exist for calls that have no memento: they go with the
     # function as well, selected by the '<qualified name>/' prefix (terminated, so that f#1 does not take f#10 along)
     for tb in ("metadata", "result"):
-        sel = [c for c in fF.calls("startswith") if any("attr:self." + tb in fF.deps(g.iter) for comp in ast.walk(fF.node) if isinstance(comp, (ast.ListComp, ast.GeneratorExp, ast.SetComp))
-                                                         for g in comp.generators if fF.inside(c, comp))]
+        # prefix tests on keys that come out of self.<tb> (the tested variable is bound by a comprehension or a loop over it)
+        sel = [c for c in fF.calls("startswith") if _binder_iter(fF, A.call_recv(c)) is not None and fF.nodes(c)
+               and "attr:self." + tb in fF.deps(_binder_iter(fF, A.call_recv(c)))]
         rem = [n for n in A.walk_body(fF.node) if (isinstance(n, ast.Delete) and any(isinstance(t, ast.Subscript) and A.norm(t.value) == "self." + tb for t in n.targets))
                or (isinstance(n, ast.Call) and A.call_attr(n) == "pop" and A.norm(A.call_recv(n)) == "self." + tb)]
         term = bool(sel) and all(c.args and ("const:'/'" in fF.deps(c.args[0])) and "qualified_name" in {d.split(".")[-1] for d in fF.deps(c.args[0]) if d.startswith("attr:")} for c in sel)
@@ -573,11 +582,19 @@ def check_cache_coherence(ck, cm):
         ck.ob(R, gm.key(c, "memento-only"), okh, "a memento found in the store is cached without a value" if okh else
               "get_mementos caches a memento with has_result set / a value: a later read_result is served None (or junk) from the cache instead of the stored value", gm.where(c))
     crr = FA(ck, "storage_base.MemoryCache.read_result")
-    vr = [r for r in crr.returns() if r.value is not None and crr.nodes(r) and crr.xnorm(r.value, crr.nodes(r)[0]).endswith(".value")]
-    # every way to a return of <entry>.value takes a branch edge that says the entry holds a value (any polarity / nesting of the
-    # test; the other edge raises KeyError or answers from somewhere else, it never reaches this return)
+    # the places where <entry>.value is read in order to be returned (in the return itself or into a result variable)
+    vr = []
+    for r in crr.returns():
+        for (v_, at_) in value_sources(crr, r):
+            try:
+                if crr.xnorm(v_, at_).endswith(".value"):
+                    vr.append(at_)
+            except AnalysisError:
+                pass
+    # every way to such a read takes a branch edge that says the entry holds a value (any polarity / nesting of the
+    # test; the other edge raises KeyError or answers from somewhere else, it never reaches the read)
     holds = branch_filter(crr, lambda t, p: p and t.endswith(".has_value"))
-    okv = bool(vr) and not (set(crr.nodes_all(vr)) & crr.cfg.reach([crr.cfg.entry], edge_ok=holds))
+    okv = bool(vr) and not (set(vr) & crr.cfg.reach([crr.cfg.entry], edge_ok=holds))
     ck.ob(R, crr.key(None, "value-only-if-has-value"), okv, "the cache serves a value only from an entry that holds one (else KeyError => store)" if okv else
           "MemoryCache.read_result can return entry.value of a memento-only entry (has_value False): the caller gets None instead of the stored result", crr.where())
     # read path: cache consulted first, and the value read from the store is put back
